@@ -225,14 +225,34 @@ func checkC03(sc *Scenario, t *Truth) []Violation {
 	}
 	// after Run() returned nothing may be launched without an explicit start
 	if t.RunRet >= 0 {
+		excused := map[*Inst]bool{}
 		for _, in := range t.Insts {
 			prevExec := 0
+			var prev *Inst
 			for _, o := range t.ByRep[in.Replica] {
 				if o.ExecSeq < in.ExecSeq && o.ExecSeq > prevExec {
-					prevExec = o.ExecSeq
+					prevExec, prev = o.ExecSeq, o
 				}
 			}
-			if in.Kind == "simproc" && in.ExecSeq > t.RunRet && !t.explicitStartCovering(in.Replica, t.RunRet, in.ExecSeq) && !t.startRequestedBetween(in.Replica, prevExec, in.ExecSeq) {
+			if in.Kind != "simproc" || in.ExecSeq <= t.RunRet {
+				continue
+			}
+			// an explicit request explains the launch - also one that was invoked before Run()
+			// returned and took its time - and the restarts its policy owes afterwards
+			explained := t.explicitStartCovering(in.Replica, t.RunRet, in.ExecSeq) || t.startRequestedBetween(in.Replica, prevExec, in.ExecSeq)
+			for _, c := range t.Calls {
+				if (c.Op == "start" || c.Op == "restart") && c.Arg == in.Replica && c.Err == "" && c.CallSeq < in.ExecSeq && c.CallSeq > prevExec {
+					explained = true
+				}
+			}
+			if !explained && prev != nil && excused[prev] && prev.ExitSeq >= 0 && restartOwed(sc.specOfReplica(in.Replica), prev.Code, 0) {
+				explained = true
+			}
+			if explained {
+				excused[in] = true
+				continue
+			}
+			if true {
 				vs = append(vs, Violation{"C03", "exec-after-run-returned", "", fmt.Sprintf("command of %s launched at seq %d after Run() returned at seq %d", in.Replica, in.ExecSeq, t.RunRet), in.ExecSeq})
 			}
 		}
